@@ -40,6 +40,8 @@ MUTANTS = [
     m("c01-log_u-sign", "R9", "        aux_vars[\"log_u\"] = np.log(rng.uniform()) - aux_vars[\"h_init\"]", "        aux_vars[\"log_u\"] = np.log(rng.uniform()) + aux_vars[\"h_init\"]"),
     m("c01-seed-slice-divergence-h_init", "R9", "        if h + aux_vars[\"log_u\"] > self.max_delta_h:\n            msg = f\"delta_h = {h + aux_vars['log_u']}\"", "        if h - aux_vars[\"h_init\"] > self.max_delta_h:\n            msg = f\"delta_h = {h - aux_vars['h_init']}\""),
     m("c01-ratio-no-cap", "R9", "        return min(numerator / denominator, 1)\n\n    def _check_divergence(self, h: ScalarLike, aux_vars: dict[str, ScalarLike]) -> None:\n        if h - aux_vars", "        return numerator / denominator\n\n    def _check_divergence(self, h: ScalarLike, aux_vars: dict[str, ScalarLike]) -> None:\n        if h - aux_vars"),
+    m("c01-initial-leaf-zero-energy", "R11", "        tree = self._new_leave(state, aux_vars[\"h_init\"], aux_vars)", "        tree = self._new_leave(state, 0.0, aux_vars)"),
+    m("c01-leaf-sum-mom", "R11", "            sum_mom=np.asarray(state.mom),", "            sum_mom=np.zeros_like(state.mom),"),
     m("c01-twin-flip-form", None, "            state_p.dir *= -1\n", "            state_p.dir = -state_p.dir\n", twin=True),
     m("c01-twin-uniform-progressive-top", None, "            accept_proposal_prob = self._weight_ratio(new_tree.weight, tree.weight)", "            accept_proposal_prob = self._weight_ratio(new_tree.weight, tree.weight)\n            _ = None", twin=True),
     m("c01-twin-accept-order", None, "        if not integration_error and rng.uniform() < accept_prob:", "        if not integration_error and accept_prob > rng.uniform():", twin=True),
